@@ -20,6 +20,10 @@ ATOM_TAC = ("by\n  simp only [{defs}, Scalar.npow, Scalar.sq, lit_real, Nat.cast
             "    Quat.toList, List.cons.injEq, and_true]\n"
             "  repeat' apply And.intro\n  all_goals (first | trivial | ring | (ring_nf))")
 
+POLAR_TAC = ("by\n  simp only [{defs}, lit_real, Nat.cast_ofNat, Nat.cast_one, Nat.cast_zero, Vec3.toList, List.cons.injEq, and_true,\n"
+             "    Bool.false_eq_true, if_false]\n"
+             "  repeat' apply And.intro\n  all_goals (first | trivial | ring | (ring_nf))")
+
 # --- branching / transcendental kernels (C01): unfold both sides over ℝ, turn the Bool tests into propositions,
 # split every `if`, close each leaf by rfl / ring1 / contradiction of linear conditions.  Robust to renamings,
 # re-association / commutation of arithmetic and to reordering of branches; see harness/props/c01.py (TAST_NOTE).
@@ -104,6 +108,8 @@ KERNEL_OBLIGATIONS = {
     # C19: one grid quaternion of the "quaternion" SO(3) method (transcendental atoms: ring up to normalisation inside them)
     "so3_quat_point": ("(u v w : ℝ)", "Gen.so3_quat_point u v w = (SO3Sampling.quatPoint u v w).toList",
                        "Gen.so3_quat_point, SO3Sampling.quatPoint", ["C19"], ATOM_TAC),
+    "from_polar_xyz": ("(a t : ℝ)", "Gen.from_polar_xyz a t = (Stereo.fromPolar false a t 1).toList",
+                       "Gen.from_polar_xyz, Stereo.fromPolar", ["C19", "C20"], POLAR_TAC),
     # C01: code-shaped conversion kernels (OrixModel/Conv.lean)
     "om2qu_single": ("(m0 m1 m2 m3 m4 m5 m6 m7 m8 : ℝ)",
                      "Gen.om2qu_single m0 m1 m2 m3 m4 m5 m6 m7 m8 = (Conv.om2qu ⟨m0, m1, m2, m3, m4, m5, m6, m7, m8⟩).toList",
